@@ -67,7 +67,22 @@ def streams(rng, tier):
     return [s1, s2] + derived
 
 
+def _judge_derived(op, impl, model, spec):
+    w = impl.split(" ")
+    try:
+        ok = len(w) == 2 and len(w[0].replace("-", "")) // 2 == int(w[1])
+    except ValueError:
+        ok = False
+    if not ok:
+        return "violation"
+    return "ok" if impl == model else "corr"
+
+
 def replay_streams(rp):
+    if rp["op"].startswith("denc"):
+        st = Stream("replay", "dgen", [rp["op"]], model_ops=[rp.get("model_op") or rp["op"]], judge=_judge_derived)
+        st.shrinkable = False
+        return [st]
     st = Stream("replay", rp.get("binary", "hcore"), [rp["op"]], model_ops=[rp.get("model_op") or rp["op"]], judge=judge_len)
     st.shrinkable = False
     return [st]
